@@ -126,7 +126,7 @@ def field(env, cfg, fid):
     F.rdc = [res.calls[2].ret_i(i) for i in range(3)]
     F.inf = d["inf"]
     d["ctx"][fid] = F
-    _state(cfg)["cur"] = (id(r), r.starts, "fb", fid)
+    _state(cfg)["cur"] = (r.uid, r.starts, "fb", fid)
     return F
 
 
@@ -152,9 +152,9 @@ def select(env, cfg, prog, what, ident):
     st = _state(cfg)
     r = env.runner(cfg)
     restart = r.proc is None or r.proc.poll() is not None or r.ncases >= r.recycle
-    if restart or st["cur"] != (id(r), r.starts, what, ident):
+    if restart or st["cur"] != (r.uid, r.starts, what, ident):
         prog.call("fb_param_set" if what == "fb" else "eb_param_set", ident)
-        st["cur"] = (id(r), r.starts + (1 if restart else 0), what, ident)
+        st["cur"] = (r.uid, r.starts + (1 if restart else 0), what, ident)
         return 1
     return 0
 
@@ -211,7 +211,7 @@ def discover_curves(env, cfg):
         raw[cid] = dict(f=int.from_bytes(res.calls[2].blobs[0], "little"), a=int.from_bytes(pc.blobs[0], "little"),
                         b=int.from_bytes(pc.blobs[1], "little"), opt_a=pc.rets[0], opt_b=pc.rets[1], kbltz=pc.rets[2],
                         fid=pc.rets[3], n=res.dumps[sn].value, h=res.dumps[sh].value, g=res.dumps[sg])
-        _state(cfg)["cur"] = (id(r), r.starts, "eb", cid)
+        _state(cfg)["cur"] = (r.uid, r.starts, "eb", cid)
     # the parameter sets documented for this field size must be selectable (a set that silently drops out would
     # otherwise just shrink the search)
     for cid, name in EB_NAME.items():
